@@ -250,6 +250,62 @@ pub fn run(out_path: &str, _seed: u64, _thorough: bool) -> (u64, u64, u64) {
         let n = FREED.lock().unwrap().iter().filter(|&&x| x == block).count();
         lg.expect(&format!("the block was freed {} times after every reference was released", n), n == 1, &["C04", "C03"]);
     }
+    // ---------------- accessors on tagged nulls and on pointers that carry a timestamp (C11): the timestamp bits are
+    // invisible to every accessor, a tagged null is null for every handle type, every (mutable) dereference reaches the
+    // object
+    const ACC: &[&str] = &["C11"];
+    {
+        let g = circ::cs();
+        for tag in 0..8usize {
+            let r: Rc<Node> = Rc::null().with_tag(tag);
+            let sn: Snapshot<Node> = Snapshot::null().with_tag(tag);
+            let w: Weak<Node> = Weak::null().with_tag(tag);
+            let ws: WeakSnapshot<Node> = WeakSnapshot::null().with_tag(tag);
+            lg.expect(&format!("Rc::null().with_tag({}): is_null / tag / as_ref", tag), r.is_null() && r.tag() == tag && r.as_ref().is_none(), ACC);
+            lg.expect(&format!("Snapshot::null().with_tag({}): is_null / tag / as_ref", tag), sn.is_null() && sn.tag() == tag && sn.as_ref().is_none(), ACC);
+            lg.expect(&format!("Weak::null().with_tag({}): is_null / tag", tag), w.is_null() && w.tag() == tag, ACC);
+            lg.expect(&format!("WeakSnapshot::null().with_tag({}): is_null / tag", tag), ws.is_null() && ws.tag() == tag, ACC);
+            lg.expect(&format!("snapshot of Rc::null().with_tag({}) is not null or lost the tag", tag), r.snapshot(&g).is_null() && r.snapshot(&g).tag() == tag, ACC);
+            // a tagged null stored in a cell and loaded back (it then also carries a timestamp)
+            let cell: AtomicRc<Node> = AtomicRc::from(Rc::null().with_tag(tag));
+            let l = cell.load(SeqCst, &g);
+            lg.expect(&format!("tagged null (tag {}) loaded from an AtomicRc: is_null / tag / as_ref", tag), l.is_null() && l.tag() == tag && l.as_ref().is_none(), ACC);
+            let wcell: AtomicWeak<Node> = AtomicWeak::from(Weak::null().with_tag(tag));
+            let wl = wcell.load(SeqCst, &g);
+            lg.expect(&format!("tagged null (tag {}) loaded from an AtomicWeak: is_null / tag", tag), wl.is_null() && wl.tag() == tag, ACC);
+        }
+        drop(g);
+        // pointers with a non-zero timestamp: written into a cell after the epoch has moved on
+        for round_no in 0..20usize {
+            round();
+            let g = circ::cs();
+            let fresh = Rc::new(node(100 + round_no));
+            let addr = fresh.as_ref().map(|n| n as *const Node as usize).unwrap_or(0);
+            let cell: AtomicRc<Node> = AtomicRc::null();
+            cell.store(fresh.with_tag(round_no & 7), SeqCst, &g);
+            let sn = cell.load(SeqCst, &g);
+            let via = |p: Option<&Node>| p.map(|n| n as *const Node as usize).unwrap_or(0);
+            lg.expect("Snapshot loaded from a cell: as_ref / deref do not reach the object", via(sn.as_ref()) == addr && unsafe { sn.deref() } as *const Node as usize == addr, ACC);
+            lg.expect("Snapshot loaded from a cell: tag changed or is_null", sn.tag() == (round_no & 7) && !sn.is_null(), ACC);
+            lg.expect("Snapshot loaded from a cell: as_mut / deref_mut do not reach the object", unsafe { sn.as_mut() }.map(|n| n as *mut Node as usize) == Some(addr) && unsafe { sn.deref_mut() } as *mut Node as usize == addr, ACC);
+            let mut back: Rc<Node> = cell.swap(Rc::null(), SeqCst);
+            lg.expect("Rc swapped out of a cell: as_ref / deref do not reach the object", via(back.as_ref()) == addr && unsafe { back.deref() } as *const Node as usize == addr, ACC);
+            lg.expect("Rc swapped out of a cell: as_mut / deref_mut do not reach the object", unsafe { back.as_mut() }.map(|n| n as *mut Node as usize) == Some(addr) && unsafe { back.deref_mut() } as *mut Node as usize == addr, ACC);
+            lg.expect("Rc swapped out of a cell: tag changed or is_null", back.tag() == (round_no & 7) && !back.is_null(), ACC);
+            let w = back.downgrade();
+            let wcell: AtomicWeak<Node> = AtomicWeak::null();
+            wcell.store(w.with_tag((round_no + 1) & 7), SeqCst, &g);
+            let wl = wcell.load(SeqCst, &g);
+            lg.expect("WeakSnapshot loaded from a cell: tag changed or is_null", wl.tag() == ((round_no + 1) & 7) && !wl.is_null(), ACC);
+            lg.expect("WeakSnapshot loaded from a cell does not upgrade to the object", wl.upgrade().map(|s| via(s.as_ref())) == Some(addr), ACC);
+            let wb: Weak<Node> = wcell.swap(Weak::null(), SeqCst);
+            lg.expect("Weak swapped out of a cell: tag changed or is_null", wb.tag() == ((round_no + 1) & 7) && !wb.is_null(), ACC);
+            lg.expect("Weak swapped out of a cell does not upgrade to the object", wb.upgrade().map(|r| via(r.as_ref())) == Some(addr), ACC);
+            drop(wb);
+            drop(back);
+            drop(g);
+        }
+    }
     // ---------------- bulk constructors through the Iterator interface: whatever adaptor consumes the iterator, every
     // share is either yielded (and then owned by the caller) or released, and the object is destructed exactly once
     const BULK: &[&str] = &["C10", "C04", "C01"];
